@@ -1,5 +1,5 @@
 (* C17 - executable interleaving model of AudioIO / AudioThread (audiolazy/lazy_io.py after the repairs
-   47547f6, 978c428, bdb2b32) at synchronisation-point granularity.  NO proofs in this file.
+   47547f6, 978c428, bdb2b32, c8d7352, 6d70eb0) at synchronisation-point granularity.  NO proofs in this file.
 
    Threads: tid 0 is the main thread running a control script (play / pause / resume / stop / close
    issued one after the other); tid (S i) is the i-th AudioThread created by AudioIO.play.
@@ -23,8 +23,8 @@
      touched by tid 0 and their accesses are thread-local code; with several control threads the
      unlocked read of _started in close would race with play);
    - unbounded audio: every played iterable is a finite list (with wait=True "finite audio" is a
-     hypothesis of the property), exceptions raised by the iterable or by struct.pack
-     (e.g. chunks(dfmt="h") with the default float padval raises in the player thread);
+     hypothesis of the property); an iterable (or struct.pack) that raises IS modelled: CPlayBad;
+     other exceptions (backend failures, exceptions inside the primitives) are not;
    - recording (RecStream, manager._recordings is empty), the `api` constructor argument;
    - commands on a player that does not exist yet are skipped (by the harness driver and by fetch).
    The manager is created by AudioIO(wait) before the first transition. *)
@@ -187,9 +187,9 @@ Definition new_player (a : list chunk) (cr : bool) : player := mkP PNew a a [] N
 Definition p_alive (p : player) : bool :=
   match ppc_ p with PNew | PDone => false | _ => true end.
 
-(* where a player goes when the chunk generator raises: run() is left by the exception, WITHOUT the
-   epilogue (the thread is dead, still in manager._threads, its stream still open) *)
-Definition crash_pc : ppc := PDone.
+(* where a player goes when the chunk generator raises: the finally clause of run() (c8d7352), i.e.
+   the same epilogue as after the last chunk; the exception then propagates and the thread dies *)
+Definition crash_pc : ppc := PEpiAcq.
 (* where the for loop over chunks() goes next: another chunk, the epilogue, or the exception *)
 Definition loop_pc (p : player) : ppc :=
   match prem p with
